@@ -734,6 +734,58 @@ def run_server(ctx, rng):
                         ctx.violation('server|roundtrip|%s|%s' % (alg.name, mode.name), 'Decrypt(Encrypt(m)) != m through the server', None)
                 else:
                     ctx.violation('server|decrypt-refused|%s|%s' % (alg.name, mode.name), 'Decrypt of an Encrypt response refused: %s' % (r2.brief(),), None)
+                # authenticated encryption through the server: the answer of Encrypt decrypts, and nothing else does - not a
+                # changed cipher text, nonce or additional data, and not a tag changed in ANY of its bytes, lengthened or
+                # presented under a shorter Tag Length
+                if alg == CA.AES:
+                    tl = rng.choice((16, 16, 12, 13, 8))
+                    nonce, aad_ = rb(rng, 12), rng.choice((None, b'', rb(rng, 9)))
+                    gp = cparams(cryptographic_algorithm=CA.AES, block_cipher_mode=BM.GCM, tag_length=tl)
+                    gdata = rb(rng, rng.choice((0, 1, 16, 33)))
+                    ge = srv.send([op_encrypt(o.uid, gdata, gp, nonce, aad_)], a, (1, 4))
+                    ctx.ev()
+                    if ge.error is None and ge.ok():
+                        gct, gtag = T.val(ge.payload(), 0x4200C2, b''), T.val(ge.payload(), 0x4200FF)
+                        ctx.cell('server-gcm', 'encrypt', 'tag%d' % tl, 'ok')
+                        try:
+                            want_ct, want_tag = ref_encrypt(CA.AES, key, BM.GCM, nonce, gdata, aad_, tl)
+                            ctx.count('references_compared')
+                            if gct != want_ct or gtag != want_tag[:tl]:
+                                ctx.violation('server|encrypt|AES|GCM|reference', 'GCM Encrypt through the server differs from the reference '
+                                              '(tag length %d)' % tl, None)
+                        except Exception:
+                            pass
+                        gd = srv.send([op_decrypt(o.uid, gct, gp, nonce, aad_, tag=gtag)], a, (1, 4))
+                        ctx.count('roundtrips')
+                        if not (gd.error is None and gd.ok() and T.val(gd.payload(), 0x4200C2, b'') == gdata):
+                            ctx.violation('server|roundtrip|AES|GCM', 'Decrypt of a GCM Encrypt answer through the server fails or differs: %s'
+                                          % (gd.brief(),), None)
+                        gtag = gtag or b''
+                        flips = sorted(set([0, len(gtag) - 1, len(gtag) // 2, min(len(gtag) - 1, 12), min(len(gtag) - 1, 8)])) if gtag else []
+                        negatives = [('tag-byte-%d' % i, gct, gtag[:i] + bytes([gtag[i] ^ 0x01]) + gtag[i + 1:], aad_, nonce, gp) for i in flips]
+                        # (a *prefix* of the tag is not among the negatives: it is the valid tag of a shorter tag length, and the
+                        # unchanged server, which does not consult the stated Tag Length when decrypting, accepts it)
+                        negatives += [('tag-longer', gct, gtag + b'\x00' * 4, aad_, nonce, gp),
+                                      ('aad', gct, gtag, (aad_ or b'') + b'x', nonce, gp),
+                                      ('nonce', gct, gtag, aad_, bytes([nonce[0] ^ 1]) + nonce[1:], gp)]
+                        if gct:
+                            negatives.append(('ciphertext', bytes([gct[0] ^ 1]) + gct[1:], gtag, aad_, nonce, gp))
+                        for short in (12, 8, 4):
+                            if short < len(gtag):
+                                # the whole tag, its last byte changed, under a smaller stated Tag Length
+                                negatives.append(('tag-tail-under-tag-length-%d' % short, gct, gtag[:-1] + bytes([gtag[-1] ^ 0x80]), aad_, nonce,
+                                                  cparams(cryptographic_algorithm=CA.AES, block_cipher_mode=BM.GCM, tag_length=short)))
+                        for what, ct_, tag_, aad2, nonce2, params2 in negatives:
+                            ctx.count('negatives_tried')
+                            try:
+                                gn = srv.send([op_decrypt(o.uid, ct_, params2, nonce2, aad2, tag=tag_)], a, (1, 4))
+                            except Exception:
+                                continue
+                            ctx.cell('server-gcm', 'negative', what.split('-')[0], 'accepted' if (gn.error is None and gn.ok()) else 'refused')
+                            if gn.error is None and gn.ok():
+                                ctx.violation('server|decrypt|AES|GCM|accepts-modified-%s' % what.rstrip('0123456789').rstrip('-'),
+                                              'GCM Decrypt through the server accepts a modified %s (stated tag length %s, tag of %d bytes)'
+                                              % (what, getattr(params2, 'tag_length', None), len(tag_)), None)
                 # MAC
                 malg = rng.choice(list(HMACS))
                 r3 = srv.send([op_mac(o.uid, data or b'x', cparams(cryptographic_algorithm=malg))], a, (1, 2))
